@@ -2039,3 +2039,50 @@ PROPS["C12"]["rule"] += (" Tag deep-stream (c12::deep_streams, op stream): strea
                          "in force, and in configuration ud (feature unbounded_depth, now in both tiers) also after Deserializer::disable_recursion_limit() on the Deserializer that "
                          "into_iter() turns into the stream (configuration token ud+nolimit: Model.Stream with limitOff, the grammar history without the depth side condition): the "
                          "stream yields the deep values and continues.")
+
+# ---- fourth-round seed misses (branch wip-h2): C13-8 (raw buffer validated before the I/O error is propagated), C05-8 / C06-8 / C05-9 (object-KEY
+#      position of the text serializer and of bytes targets), C14-8 (float_roundtrip: parse_decimal_overflow on decimals below 0.1)
+PROPS["C13"]["rule"] += (" Viable prefixes (lean/SJ/Spec/Viable.lean, verdict judgeViable of ops rfault / rfault1 / rfaultt for the targets value, ignored, raw, "
+    "rawvec, rawmap): 'the bytes delivered before the fault already doom the input' is judged on the SPECIFICATION side, from the delivered prefix alone - "
+    "Spec.Viable.strictViable runs a byte automaton over the RFC 8259 grammar (every non-rejecting state has a completion) and Spec.Utf8.validUtf8 on the "
+    "prefix extended by each of the nine shortest completions of a truncated character, so a prefix that ends INSIDE a multi-byte UTF-8 character is viable; "
+    "surrogate escapes, numbers of more than 200 integer digits or 3 exponent digits and nesting of 100 and more count as 'not sure' (no verdict). A delivered fault "
+    "after a viable prefix must surface as Io with the reader's kind; comparing with what the crate itself makes of the same bytes followed by a clean end of "
+    "input (judgeFault) is kept for the other prefixes and for the five typed targets, but is no longer the only test (it is blind to a change that corrupts both runs alike: seed C13-8).")
+KEYS_ESCK_RULE = (" Object-KEY position of the text serializer (op esck, harness/src/keys.rs, lean/SJ/Drv/Keys.lean): every char below U+0100, the characters around "
+    "U+07FF / U+2028 / U+D7FF / U+E000 / U+FFFD and the plane boundaries, a random 0.04% (thorough 2%) of the others, all 256 pairs of 16 escape-relevant "
+    "characters and 300 (thorough 5000) random strings of up to 11 characters, each as the key of a one-entry map through four routes - cm = BTreeMap<char, u8> "
+    "(MapKeySerializer::serialize_char), ch = hand-driven serialize_map + serialize_key(&char), sm = BTreeMap<String, u8>, sh = hand-driven serialize_key(&str) - "
+    "and through to_string / to_vec / to_writer (the bytes between `{` and `:1}`) and to_string_pretty (between `{\\n  ` and `: 1\\n}`), which must agree. Model: "
+    "Model.Escape.escapedBytes (format_escaped_str, which the key serializer forwards to); specification: Spec.Str.escapeSpec of the string - the function "
+    "that judges the value position in op esc. Non-trivial: the key has a byte that must be escaped or a non-ASCII character.")
+KEYS_RSK_RULE = (" Bytes-typed object KEYS (op rsk, harness/src/keys.rs, lean/SJ/Drv/Keys.lean): every literal that op rs reads into ByteBuf, every literal op scan reads "
+    "into ByteBuf from the start of a slice, and the mixed-case \\uXXXX group of every 32nd u16 (every 4th in D7F0..E00F) of op hex4, ALSO as the key of "
+    "{<literal>:7} read into BTreeMap<serde_bytes::ByteBuf, u8> from str / slice / reader. Model: parse_str_raw of the two scanner models (Model.ReadSlice, "
+    "Model.ReadIo) at the key's index (echoed when the literal closes before the `:7}`); specification, independent of the models and of the crate's "
+    "value-position result: Spec.Wtf8.lex / Spec.Wtf8.decodeBytes of the key literal - the key is exactly the WTF-8 decoding (unpaired surrogates in "
+    "WTF-8 form, raw non-UTF-8 bytes unchanged), an invalid escape is InvalidEscape, an unterminated literal EofWhileParsingString. Bare control characters "
+    "are raw items here as in op rd (finding C05-bytes-control-char-accepted is reported by op bytesctl only).")
+PROPS["C05"]["rule"] += KEYS_ESCK_RULE + KEYS_RSK_RULE
+PROPS["C06"]["rule"] += (" Serialising side, every width (op ikey, harness/src/keys.rs, lean/SJ/Drv/Keys.lean; SPECIFICATION ONLY - the model field is the expected "
+    "observation): i8 / i16 / i32 / i64 / i128 / u8 / u16 / u32 / u64 / u128 x {2^k and 2^k +-1, +-2 for k in 0,1,6,7,8,15,16,31,32,53,62,63,64,65,100,126,127 and "
+    "their negatives, u128::MAX-2..MAX, powers of ten around 19 / 20 / 38 / 39 digits - whatever fits the type, which includes MIN, MIN+1, -1, 0, 1, MAX-1, MAX of "
+    "every type} + 60 (thorough 3000) random values per type of every magnitude, as the KEY of a one-entry BTreeMap<T, bool> through to_string, to_string_pretty, "
+    "to_vec, to_writer, a hand-driven serialize_map + serialize_key, and to_value (key of the resulting Map), and as a VALUE through to_string, to_vec and to_value "
+    "(the Number's text). The driver parses the decimal argument (printed by Rust's own Display, not by the crate) to an Int, checks it against the type's range and "
+    "prints it back with its own digit loop: every key field must be those digits in quotes (to_value: unquoted), every value field those digits; to_value of a "
+    "128-bit integer outside [i64::MIN, u64::MAX] may refuse without arbitrary_precision (op ival has the exact rule). Verdict: `C06 integer key <ty> <value> "
+    "serialises (<route>) as ..., expected \"<digits>\"`. Non-trivial: more than one character.")
+PROPS["C14"]["configs"] = dict(quick=PROPS["C14"]["configs"]["quick"] + ["fr"], thorough=PROPS["C14"]["configs"]["thorough"] + ["fr"])
+PROPS["C14"]["rule"] += (" Long-number shapes around the 64-bit significand overflow (harness/src/c14num.rs, configurations d / fr / ap - not rv, ud; tags ovf-core / "
+    "ovf-var / ovf-straddle / ovf-rand): k = 0..25 leading fractional zeros x 19 / 20 / 21 / 25 / 40 / 800 significant digits (quick: the 800-digit literals with one "
+    "rotating prefix per k, under float_roundtrip for k = 1 and 20 only - the exact model needs ~0.2 s per such line) x ten 19-digit prefixes (1844674407370955159, ...160, ...161 twice, ...162, ...163, ...170, 9999999999999999999, 1000000000000000000, "
+    "2718281828459045235) with a 20th digit rotating through 5 6 0 9 1 - u64::MAX / 10 = 1844674407370955161 and the next digit > 5 decide where "
+    "parse_decimal_overflow takes over -, as 0.<zeros><digits> (core), with a non-zero integer part / one of seven exponent suffixes (none, e5, E-7, e+30, e-320, "
+    "E400, e-2147483647) / a minus sign / inside [x], [1, x ,2], {\"k\":x} (one rotating variation per core literal; quick: every second), with the digits straddling "
+    "the decimal point (quick: a third of the lengths up to 21), and 250 (thorough 20000) random combinations with prefixes 1844674407370955000..399; each "
+    "document into Value and IgnoredAny from str / slice / reader (ops pv / pi, machine model) and into typed targets (op tt, typed model) from rotating sources: "
+    "f64, f32, u64 or i64 for the bare literal, Vec<f64> / Vec<f32> for the array forms, BTreeMap<String, f64> for the object form (thorough: f64 from all three "
+    "sources, also Vec<Value> and BTreeMap<String, IgnoredAny>); a PANIC observation is a C14 verdict in all of them. Configuration fr (float_roundtrip and "
+    "nothing else; added to quick and thorough) runs the NUMBER families only - these shapes, c01::long_seq and c01::exp_edge - since the number conversion is "
+    "all the feature changes.")
